@@ -85,18 +85,87 @@ def run(ctx: Ctx):
                and isinstance(n.test, ast.Compare) and isinstance(n.test.ops[0], ast.Is) and norm(n.test.left).endswith(".exchange_map")
                and norm(n.test.comparators[0]) == "None"]
         t_maps = bool(ifs) and cfg.node_of(chk_loops[0]).id in dom[op_node.id]
+    if not chk_loops:
+        # the same check as one expression: `if any(a.exchange_map is None for a in cc.values()): raise`
+        for n in walk_no_nested(f.node):
+            if isinstance(n, ast.If) and branch_raises(n.body) and isinstance(n.test, ast.Call) and call_name(n.test) == "any" \
+                    and len(n.test.args) == 1 and isinstance(n.test.args[0], (ast.GeneratorExp, ast.ListComp)):
+                g_ = n.test.args[0]
+                e_ = g_.elt
+                if len(g_.generators) == 1 and not g_.generators[0].ifs and norm(g_.generators[0].iter) in ("%s.values()" % cc,) \
+                        and isinstance(e_, ast.Compare) and isinstance(e_.ops[0], ast.Is) and norm(e_.comparators[0]) == "None" \
+                        and norm(e_.left) == "%s.exchange_map" % norm(g_.generators[0].target):
+                    t_maps = cfg.node_of(n).id in dom[op_node.id]
+                    chk_loops = [n]
     ctx.ob("R5.1", f, "pre-flight: `not %s` and `exchange_map is None` for every complete species" % cc, t_empty and t_maps,
            "extrapolating with nothing to map, or before every species' exchange map exists, raises before any file is created",
            node=chk_loops[0] if chk_loops else f.node)
 
+    res_ = _r5_2_to_4(ctx, f, cfg, dom, pm, op, cc)
+    # ------------------------------------------------------------------ R5.5
+    withs = [n for n in walk_no_nested(f.node) if isinstance(n, ast.With) and any(op is x for i in n.items for x in ast.walk(i.context_expr))]
+    scope = withs[0] if withs else f.node
+    handle = norm(withs[0].items[0].optional_vars) if withs and withs[0].items[0].optional_vars is not None else None
+    ml = res_
+    if ml is None:
+        # the first write: the first statement of the block that uses the handle other than storing an attribute of it
+        uses = [s for s in (scope.body if withs else []) if not (isinstance(s, ast.Assign) and isinstance(s.targets[0], ast.Attribute)
+                                                                  and norm(s.targets[0].value) == handle)
+                and any(isinstance(x, ast.Name) and x.id == handle for x in ast.walk(s))]
+        ml = uses[0] if uses else scope
+    first_write = cfg.node_of(ml)
+    for attr, src in (("comment", "self.system.system_gro.comment_line"), ("box_matrix", "self.system.system_gro.box_matrix")):
+        st = [s for s in walk_no_nested(scope) if isinstance(s, ast.Assign) and norm(s.targets[0]) == "%s.%s" % (handle, attr)]
+        ok = len(st) == 1 and norm(st[0].value) == src and cfg.node_of(st[0]).id in dom[first_write.id] \
+            and not guards_of(st[0], pm)
+        ctx.ob("R5.5", f, st[0] if st else "%s forwarding" % attr, ok,
+               "the output's %s is taken from the input system before the first line is written" % ("title" if attr == "comment" else "box"),
+               node=st[0] if st else scope)
+    # the handle is closed by the with-statement (count back-fill and box line are written on close)
+    ctx.ob("R5.5", f, "with-statement around the writer", bool(withs),
+           "the writer is closed on leaving the block, which writes the atom count and the box line", node=scope)
+    # ------------------------------------------------------------------ R5.6
+    exmap.r2_3(ctx, rule="R5.6")
+    # residue numbers of each written molecule are those of its input molecule (C04/R4.5)
+    em = exmap.EM(ctx)
+    fcall = em.call
+    cfgc = CFG(fcall.node)
+    domc = cfgc.dominators()
+    argp = [p_ for p_ in fcall.params if p_ != "self"][0]
+    rs = [s_ for s_ in walk_no_nested(fcall.node) if isinstance(s_, ast.Assign) and isinstance(s_.targets[0], ast.Attribute)
+          and s_.targets[0].attr == "resids"]
+    frets = [n_ for n_ in walk_no_nested(fcall.node) if isinstance(n_, ast.Return)]
+    okr = bool(rs) and bool(frets) and norm(rs[0].value) == "%s.resids" % argp and all(
+        cfgc.node_of(rs[0]).id in domc[cfgc.node_of(r_).id] and norm(r_.value) == norm(rs[0].targets[0].value) for r_ in frets)
+    ctx.ob("R5.6", fcall, rs[0] if rs else "residue numbers", okr,
+           "every mapped molecule carries exactly the residue numbers of its input molecule (copied, not renumbered)",
+           node=rs[0] if rs else fcall.node)
+    # the box line is written completely (C13/R13.4)
+    from . import c13
+    c13.r13_4(ctx, rule="R5.5")
+    # the title travels unchanged through the writer's setter and header (C13/R13.6)
+    c13.r13_6(ctx, rule="R5.5")
+    # the molecules iterated are the file's instances, all of them, in file order (C11/R11.1, R11.3)
+    from . import c11
+    c11.r11_1_2(ctx)
+    c11.r11_3(ctx)
+
+
+
+def _r5_2_to_4(ctx: Ctx, f, cfg, dom, pm, op, cc):
     # ------------------------------------------------------------------ R5.2
     withs = [n for n in walk_no_nested(f.node) if isinstance(n, ast.With) and any(op is x for i in n.items for x in ast.walk(i.context_expr))]
     scope = withs[0] if withs else f.node
     handle = norm(withs[0].items[0].optional_vars) if withs and withs[0].items[0].optional_vars is not None else None
     mol_loops = [n for n in walk_no_nested(scope) if isinstance(n, ast.For) and norm(n.iter) in ("self.system", "self.system[:]")]
     if not mol_loops:
-        ctx.ob("R5.2", f, "molecule loop", False, "the molecules are visited by iterating the system itself (file order) "
-               "-- loop `for mol in self.system` not found", node=scope)
+        other = [n for n in walk_no_nested(scope) if isinstance(n, (ast.For, ast.While))]
+        if other:
+            ctx.ob("R5.2", f, "molecule loop", False, "the molecules are visited by iterating the system itself (file order) "
+                   "-- loop `for mol in self.system` not found", node=scope)
+        else:
+            ctx.ob("R5.2", f, "molecule loop", True, "the writing pass is not a loop in this function (it was moved elsewhere); "
+                   "order, counter and per-atom writes are not decided on this tree", undecided=True, node=scope)
         return
     ml = mol_loops[0]
     mol = norm(ml.target)
@@ -181,40 +250,4 @@ def run(ctx: Ctx):
         ctx.ob("R5.4", f, inits[0] if inits else "counter initialisation", ok,
                "the counter starts at 1 before the molecule loop and is never reset or changed elsewhere (atom numbers run "
                "consecutively from 1 over the whole file)", node=inits[0] if inits else f.node)
-    # ------------------------------------------------------------------ R5.5
-    first_write = cfg.node_of(ml)
-    for attr, src in (("comment", "self.system.system_gro.comment_line"), ("box_matrix", "self.system.system_gro.box_matrix")):
-        st = [s for s in walk_no_nested(scope) if isinstance(s, ast.Assign) and norm(s.targets[0]) == "%s.%s" % (handle, attr)]
-        ok = len(st) == 1 and norm(st[0].value) == src and cfg.node_of(st[0]).id in dom[first_write.id] \
-            and not guards_of(st[0], pm)
-        ctx.ob("R5.5", f, st[0] if st else "%s forwarding" % attr, ok,
-               "the output's %s is taken from the input system before the first line is written" % ("title" if attr == "comment" else "box"),
-               node=st[0] if st else scope)
-    # the handle is closed by the with-statement (count back-fill and box line are written on close)
-    ctx.ob("R5.5", f, "with-statement around the writer", bool(withs),
-           "the writer is closed on leaving the block, which writes the atom count and the box line", node=scope)
-    # ------------------------------------------------------------------ R5.6
-    exmap.r2_3(ctx, rule="R5.6")
-    # residue numbers of each written molecule are those of its input molecule (C04/R4.5)
-    em = exmap.EM(ctx)
-    fcall = em.call
-    cfgc = CFG(fcall.node)
-    domc = cfgc.dominators()
-    argp = [p_ for p_ in fcall.params if p_ != "self"][0]
-    rs = [s_ for s_ in walk_no_nested(fcall.node) if isinstance(s_, ast.Assign) and isinstance(s_.targets[0], ast.Attribute)
-          and s_.targets[0].attr == "resids"]
-    frets = [n_ for n_ in walk_no_nested(fcall.node) if isinstance(n_, ast.Return)]
-    okr = bool(rs) and bool(frets) and norm(rs[0].value) == "%s.resids" % argp and all(
-        cfgc.node_of(rs[0]).id in domc[cfgc.node_of(r_).id] and norm(r_.value) == norm(rs[0].targets[0].value) for r_ in frets)
-    ctx.ob("R5.6", fcall, rs[0] if rs else "residue numbers", okr,
-           "every mapped molecule carries exactly the residue numbers of its input molecule (copied, not renumbered)",
-           node=rs[0] if rs else fcall.node)
-    # the box line is written completely (C13/R13.4)
-    from . import c13
-    c13.r13_4(ctx, rule="R5.5")
-    # the title travels unchanged through the writer's setter and header (C13/R13.6)
-    c13.r13_6(ctx, rule="R5.5")
-    # the molecules iterated are the file's instances, all of them, in file order (C11/R11.1, R11.3)
-    from . import c11
-    c11.r11_1_2(ctx)
-    c11.r11_3(ctx)
+    return ml
